@@ -1037,9 +1037,10 @@ structure WebhookBody where
   deriving DecidableEq, Repr
 
 inductive WebhookOut
-  | proceed                -- `auth.UpdateProvisioner` is called with the webhook appended
+  | proceed                -- `auth.UpdateProvisioner` is called with the webhook appended / replaced
   | badRequest
   | conflict
+  | notFound
   deriving DecidableEq, Repr
 
 /-- `CreateProvisionerWebhook` up to the call of `UpdateProvisioner` -/
@@ -1055,6 +1056,39 @@ def createWebhookCheck (b : WebhookBody) : WebhookOut :=
   else if b.idGiven then .badRequest
   else if b.nameTaken then .conflict
   else .proceed
+
+/-- `validateWebhook` alone -/
+def webhookValid (b : WebhookBody) : Bool :=
+  b.nameGiven && b.urlParses && b.hostGiven && b.https && !b.userinfo && b.kindKnown
+
+/-- `UpdateProvisionerWebhook` up to the call of `UpdateProvisioner`: `b.nameTaken` = the provisioner
+    has a webhook of that name (the one to replace); a secret or id in the body must be the stored one -/
+def updateWebhookCheck (b : WebhookBody) (secretDiffers idDiffers : Bool) : WebhookOut :=
+  if !b.parses then .badRequest
+  else if !webhookValid b then .badRequest
+  else if !b.nameTaken then .notFound
+  else if secretDiffers then .badRequest
+  else if idDiffers then .badRequest
+  else .proceed
+
+/-- `DeleteProvisionerWebhook`: `UpdateProvisioner` is called only when the name is there; otherwise
+    the answer is "ok" with nothing done -/
+def deleteWebhookProceeds (found : Bool) : Bool := found
+
+/-- the provisioner-policy sub-router (`/admin/provisioners/{name}/policy`), reachable when the admin
+    database is neither the nosql one (`disabledInStandalone`) nor a linked CA (`blockLinkedCA`) -/
+inductive PolicyVerb
+  | create | update | delete
+  deriving DecidableEq, Repr
+
+/-- the handler up to the call of `UpdateProvisioner` (which then runs `provPolicyCheck`):
+    create refuses when the record already has a policy (conflict), update and delete when it has
+    none (not found); then the body must parse and `validatePolicy` must build the three engines -/
+def provPolicyHandlerCheck (verb : PolicyVerb) (hasPolicy parses valid : Bool) : WebhookOut :=
+  match verb with
+  | .create => if hasPolicy then .conflict else if !parses then .badRequest else if !valid then .badRequest else .proceed
+  | .update => if !hasPolicy then .notFound else if !parses then .badRequest else if !valid then .badRequest else .proceed
+  | .delete => if !hasPolicy then .notFound else .proceed
 
 /-- the kinds of provisioner details there are; `ProvisionerToCertificates` accepts a record iff
     its details are the ones `admin.UnmarshalProvisionerDetails` would create for its type. The
@@ -1152,5 +1186,146 @@ def PColl.byCertificateStrict (P : PColl) (o : CertOrigin) : Option Prov :=
 
 def Auth.requestFromStrict (s : Auth) (o : CertOrigin) (r : AdminReq) : Auth × AdminAuthz :=
   s.request { r with prov := (s.cache.P.byCertificateStrict o).map (·.name) }
+
+/-! ### first start with the admin API enabled: the migration of the configuration's provisioners
+(`authority.init`: `GetProvisioners`; on an empty result `ProvisionerToLinkedca` + `CreateProvisioner`
+for every provisioner of ca.json, `CreateFirstProvisioner` when none of them is a JWK provisioner,
+`CreateAdmin` of the super administrator `step` on the first JWK provisioner; then
+`ReloadAdminResources`) -/
+
+/-- linkedca's `Provisioner_JWK` -/
+def jwkKind : Nat := 1
+
+/-- the fault schedule as the rest of the request sees it after `k` database calls -/
+def shiftFaults (k : Nat) (f : Faults) : Faults := f.filterMap (fun n => if k < n then some (n - k) else none)
+
+/-- the loop over the configuration's provisioners: calls made so far, provisioners stored so far,
+    ids created so far (latest first); `false` = a `CreateProvisioner` failed (what was stored
+    before stays) -/
+def migrateProvs (f : Faults) : Nat → List Prov → List Str → List Prov → Nat × List Prov × List Str × Bool
+  | k, acc, cr, [] => (k, acc, cr, true)
+  | k, acc, cr, p :: r =>
+    if f.contains (k + 1) then (k + 1, acc, cr, false)
+    else migrateProvs f (k + 1) (insDB (·.id) p acc) (p.id :: cr) r
+
+/-- `undo` of the all-or-nothing migration: `DeleteProvisioner` for every provisioner the block
+    created; a delete that fails leaves its provisioner stored -/
+def rollback (f : Faults) : Nat → List Prov → List Str → Nat × List Prov
+  | k, provs, [] => (k, provs)
+  | k, provs, id :: r =>
+    if f.contains (k + 1) then rollback f (k + 1) provs r
+    else rollback f (k + 1) (provs.filter (fun p => decide (p.id ≠ id))) r
+
+structure FirstStart where
+  cfg : List Prov          -- the provisioners of ca.json, with the ids the database assigns them
+  dflt : Prov              -- what `CreateFirstProvisioner` creates ("Admin JWK")
+  admId : Str              -- the id the database assigns to the first super administrator
+  deriving Repr
+
+def stepSub : Str := s "step"
+
+/-- the database after the migration block, the calls it made, and the error if one of them failed.
+    `atomic`: the block deletes what it created before it returns an error (notes/C16.md, F7);
+    `false` is the code before that repair. -/
+def migrateFail (atomic : Bool) (f : Faults) (db : DB) (k : Nat) (provs : List Prov) (cr : List Str) :
+    DB × Nat × Option AuthOut :=
+  if atomic then
+    ({ db with provs := (rollback f k provs cr.reverse).2 }, (rollback f k provs cr.reverse).1, some .storeFailed)
+  else ({ db with provs := provs }, k, some .storeFailed)
+
+def Auth.migrate (atomic : Bool) (f : Faults) (db : DB) (m : FirstStart) : DB × Nat × Option AuthOut :=
+  let fail := migrateFail atomic f db
+  if f.contains 1 then (db, 1, some .reloadFailed) else           -- GetProvisioners
+  if !db.provs.isEmpty then (db, 1, none) else                    -- not a first start
+  match migrateProvs f 1 [] [] m.cfg with
+  | (k, provs, cr, false) => fail k provs cr
+  | (k, provs, cr, true) =>
+    match m.cfg.find? (fun p => p.kind == jwkKind) with
+    | some p =>
+      if f.contains (k + 1) then fail (k + 1) provs cr else
+      ({ db with provs := provs,
+                 adms := insDB (·.id) { id := m.admId, sub := stepSub, provId := p.id, super := true } db.adms },
+       k + 1, none)
+    | none =>
+      -- `CreateFirstProvisioner`
+      if f.contains (k + 1) then fail (k + 1) provs cr else
+      let provs := insDB (·.id) m.dflt provs
+      let cr := m.dflt.id :: cr
+      if f.contains (k + 2) then fail (k + 2) provs cr else
+      ({ db with provs := provs,
+                 adms := insDB (·.id) { id := m.admId, sub := stepSub, provId := m.dflt.id, super := true } db.adms },
+       k + 2, none)
+
+/-- the code modelled by the driver: the migration block as it stands in /repo -/
+def migrateAtomic : Bool := true
+
+/-- a start of the CA on `db` with that configuration -/
+def Auth.firstStart (v : Variant) (atomic : Bool) (f : Faults) (db : DB) (m : FirstStart) : Auth × AuthOut :=
+  match Auth.migrate atomic f db m with
+  | (db', _, some o) => ({ db := db' }, o)
+  | (db', k, none) => Auth.step v (shiftFaults k f) { db := db' } .restart
+
+/-! ### conversions between ca.json's provisioners and the admin database's (linkedca), both ways
+
+What `ProvisionerToLinkedca` followed by `ProvisionerToCertificates` (direction `cl`: the first-start
+migration, then every reload) and `ProvisionerToCertificates` followed by `ProvisionerToLinkedca`
+(direction `lc`: export) do NOT carry over, per provisioner type, with every exported field set.
+Re-measured on the real functions on every run (stage `conv`, reflection over the Go structs and
+the protobuf descriptors) and compared with this table, together with the number of fields set. -/
+
+/-- a field path, one segment per struct field / message field -/
+abbrev Path := List String
+
+def goNamePolicyPaths : List Path :=
+  ([["Options", "SSH", "Host"], ["Options", "SSH", "User"]].flatMap fun s =>
+    ["AllowedNames", "DeniedNames"].flatMap fun ad =>
+      ["DNSDomains", "EmailAddresses", "IPRanges", "Principals"].map fun k => s ++ [ad, k]) ++
+  (["AllowedNames", "DeniedNames"].flatMap fun ad =>
+      ["CommonNames", "DNSDomains", "EmailAddresses", "IPRanges", "URIDomains"].map fun k => ["Options", "X509", ad, k]) ++
+  [["Options", "X509", "AllowWildcardNames"]]
+
+def pbPolicyPaths : List Path :=
+  (["allow", "deny"].flatMap fun ad => ["dns", "ips", "principals"].map fun k => ["policy", "ssh", "host", ad, k]) ++
+  (["allow", "deny"].flatMap fun ad => ["emails", "principals"].map fun k => ["policy", "ssh", "user", ad, k]) ++
+  (["allow", "deny"].flatMap fun ad => ["common_names", "dns", "emails", "ips", "uris"].map fun k => ["policy", "x509", ad, k]) ++
+  [["policy", "x509", "allow_wildcard_names"]]
+
+/-- not representable in linkedca or inlined: template *files* (their content is stored), the ACME
+    Wire options, the name policy (not settable from ca.json: `json:"-"`; export drops it) -/
+def clCommon : List Path :=
+  goNamePolicyPaths ++ [["Options", "SSH", "TemplateFile"], ["Options", "X509", "TemplateFile"], ["Options", "Wire"]]
+
+/-- database bookkeeping and the policy -/
+def lcCommon : List Path :=
+  pbPolicyPaths ++ [["authority_id"], ["created_at", "nanos"], ["created_at", "seconds"], ["deleted_at", "nanos"], ["deleted_at", "seconds"]]
+
+structure ConvRow where
+  dir : String
+  typ : String
+  fields : Nat        -- number of distinct field paths set by the harness
+  loss : List Path    -- paths lost or changed by the round trip
+
+def convLoss : List ConvRow := [
+  ⟨"cl", "JWK", 62, clCommon⟩, ⟨"cl", "OIDC", 70, clCommon⟩, ⟨"cl", "GCP", 67, clCommon⟩,
+  ⟨"cl", "AWS", 66, clCommon ++ [["IIDRoots"], ["IMDSVersions"]]⟩,
+  ⟨"cl", "Azure", 67, clCommon ++ [["Type"]]⟩, ⟨"cl", "ACME", 68, clCommon⟩, ⟨"cl", "X5C", 61, clCommon⟩,
+  ⟨"cl", "K8sSA", 61, clCommon ++ [["Type"]]⟩, ⟨"cl", "SSHPOP", 16, []⟩, ⟨"cl", "SCEP", 71, clCommon⟩,
+  ⟨"cl", "Nebula", 61, clCommon ++ [["Type"]]⟩,
+  ⟨"lc", "JWK", 58, lcCommon⟩, ⟨"lc", "OIDC", 66, lcCommon⟩, ⟨"lc", "GCP", 63, lcCommon⟩, ⟨"lc", "AWS", 60, lcCommon⟩,
+  ⟨"lc", "AZURE", 63, lcCommon⟩, ⟨"lc", "ACME", 64, lcCommon⟩, ⟨"lc", "X5C", 57, lcCommon⟩, ⟨"lc", "K8SSA", 57, lcCommon⟩,
+  ⟨"lc", "SSHPOP", 56, lcCommon ++ [["ssh_template", "data"], ["ssh_template", "template"], ["x509_template", "data"], ["x509_template", "template"],
+      ["webhooks", "basic_auth", "password"], ["webhooks", "basic_auth", "username"], ["webhooks", "cert_type"], ["webhooks", "disable_tls_client_auth"],
+      ["webhooks", "id"], ["webhooks", "kind"], ["webhooks", "name"], ["webhooks", "secret"], ["webhooks", "url"]]⟩,
+  ⟨"lc", "SCEP", 67, lcCommon⟩, ⟨"lc", "NEBULA", 57, lcCommon⟩]
+
+/-- the paths the administrative state is made of: identity, keys, roots, claims, the templates'
+    content, the webhooks — for every type that has them -/
+def convProtected : List Path :=
+  [["ID"], ["Name"], ["Key"], ["EncryptedKey"], ["Claims"], ["Roots"], ["PubKeys"], ["Options", "X509", "Template"],
+   ["Options", "X509", "TemplateData"], ["Options", "SSH", "Template"], ["Options", "SSH", "TemplateData"], ["Options", "Webhooks"],
+   ["id"], ["name"], ["type"], ["details"], ["claims"]]
+
+/-- `x` is `p` or lies below it -/
+def pathBelow (p x : Path) : Bool := p.isPrefixOf x
 
 end Verif.Admin
